@@ -1,0 +1,330 @@
+//! Verification hooks: compiled only with `--cfg hclrs_verif`.
+//!
+//! Read-only views of crate-private machinery (lexer, parser, checker,
+//! evaluator, disassembler, static tables) for external verification
+//! harnesses. Nothing here is reachable from a normal build.
+
+use std::collections::hash_map::HashMap;
+use std::fmt::Write;
+
+use ast::{Expr, SpannedExpr, Statement, WireValue, WireValues, WireWidth};
+use errors::Error;
+use lexer::{Lexer, Tok};
+use parser::{ExprParser, StatementsParser};
+
+pub use program::verif_hooks::*;
+pub use program::Memory;
+pub use ast::{WireValue as HookWireValue, WireWidth as HookWireWidth};
+
+pub fn preamble() -> &'static str {
+    ::program::Y86_PREAMBLE
+}
+
+/// strict-boolean-ops, strict-wire-widths-binary, require-mux-default,
+/// disallow-multiple-mux-default, disallow-unreachable-options
+pub fn features() -> [bool; 5] {
+    [
+        cfg!(feature = "strict-boolean-ops"),
+        cfg!(feature = "strict-wire-widths-binary"),
+        cfg!(feature = "require-mux-default"),
+        cfg!(feature = "disallow-multiple-mux-default"),
+        cfg!(feature = "disallow-unreachable-options"),
+    ]
+}
+
+pub fn disassemble(instruction: u128) -> (u8, String) {
+    ::y86_disasm::disassemble_to_string(instruction)
+}
+
+pub fn width_str(w: WireWidth) -> String {
+    match w {
+        WireWidth::Bits(n) => format!("{}", n),
+        WireWidth::Unlimited => String::from("u"),
+    }
+}
+
+pub fn value_str(v: &WireValue) -> String {
+    format!("{} {}", v.bits, width_str(v.width))
+}
+
+fn span_str(with_spans: bool, span: (usize, usize)) -> String {
+    if with_spans { format!(" @{}:{}", span.0, span.1) } else { String::new() }
+}
+
+/// S-expression rendering of an expression (optionally with byte spans).
+pub fn expr_sexpr(e: &SpannedExpr, with_spans: bool) -> String {
+    let mut out = String::new();
+    write_expr(&mut out, e, with_spans);
+    out
+}
+
+fn write_expr(out: &mut String, e: &SpannedExpr, sp: bool) {
+    let s = span_str(sp, e.span);
+    match *e.expr {
+        Expr::Constant(ref v) => { write!(out, "(c {}{})", value_str(v), s).unwrap(); },
+        Expr::BinOp(op, ref l, ref r) => {
+            write!(out, "(b {:?} ", op).unwrap();
+            write_expr(out, l, sp);
+            out.push(' ');
+            write_expr(out, r, sp);
+            write!(out, "{})", s).unwrap();
+        },
+        Expr::UnOp(op, ref inner) => {
+            write!(out, "(u {:?} ", op).unwrap();
+            write_expr(out, inner, sp);
+            write!(out, "{})", s).unwrap();
+        },
+        Expr::Mux(ref options) => {
+            out.push_str("(m");
+            for option in options {
+                out.push_str(" (arm ");
+                write_expr(out, &option.condition, sp);
+                out.push(' ');
+                write_expr(out, &option.value, sp);
+                out.push(')');
+            }
+            write!(out, "{})", s).unwrap();
+        },
+        Expr::NamedWire(ref name) => { write!(out, "(w {}{})", name, s).unwrap(); },
+        Expr::BitSelect { ref from, low, high } => {
+            out.push_str("(s ");
+            write_expr(out, from, sp);
+            write!(out, " {} {}{})", low, high, s).unwrap();
+        },
+        Expr::Concat(ref l, ref r) => {
+            out.push_str("(cat ");
+            write_expr(out, l, sp);
+            out.push(' ');
+            write_expr(out, r, sp);
+            write!(out, "{})", s).unwrap();
+        },
+        Expr::InSet(ref l, ref lst) => {
+            out.push_str("(in ");
+            write_expr(out, l, sp);
+            for item in lst {
+                out.push(' ');
+                write_expr(out, item, sp);
+            }
+            write!(out, "{})", s).unwrap();
+        },
+        Expr::Error => { write!(out, "(error{})", s).unwrap(); },
+    }
+}
+
+pub fn statement_sexpr(st: &Statement, sp: bool) -> String {
+    let mut out = String::new();
+    match *st {
+        Statement::ConstDecls(ref decls) => {
+            out.push_str("(const");
+            for d in decls {
+                write!(out, " (def {}{} ", d.name, span_str(sp, d.name_span)).unwrap();
+                write_expr(&mut out, &d.value, sp);
+                out.push(')');
+            }
+            out.push(')');
+        },
+        Statement::WireDecls(ref decls) => {
+            out.push_str("(wire");
+            for d in decls {
+                write!(out, " (decl {} {}{})", d.name, width_str(d.width), span_str(sp, d.span)).unwrap();
+            }
+            out.push(')');
+        },
+        Statement::Assignments(ref assigns) => {
+            out.push_str("(assign");
+            for a in assigns {
+                out.push_str(" (set (");
+                let mut first = true;
+                for &(ref n, nspan) in &a.names {
+                    if !first { out.push(' '); }
+                    first = false;
+                    write!(out, "{}{}", n, span_str(sp, nspan)).unwrap();
+                }
+                out.push_str(") ");
+                write_expr(&mut out, &a.value, sp);
+                write!(out, "{})", span_str(sp, a.span)).unwrap();
+            }
+            out.push(')');
+        },
+        Statement::RegisterBankDecl(ref bank) => {
+            write!(out, "(register {}{}", bank.name, span_str(sp, bank.name_span)).unwrap();
+            for r in &bank.registers {
+                write!(out, " (reg {} {} ", r.name, width_str(r.width)).unwrap();
+                write_expr(&mut out, &r.default, sp);
+                write!(out, "{})", span_str(sp, r.span)).unwrap();
+            }
+            write!(out, "{})", span_str(sp, bank.span)).unwrap();
+        },
+        Statement::Error => { out.push_str("(error)"); },
+    }
+    out
+}
+
+fn tok_str(t: &Tok) -> String {
+    match *t {
+        Tok::Constant(ref v) => format!("Constant {}", value_str(v)),
+        Tok::Identifier(name) => format!("Identifier {}", name),
+        ref other => format!("{:?}", other),
+    }
+}
+
+/// Token stream of `text`: Ok((start, token, end)) or Err(description); stops at the first error
+/// or after `limit` tokens.
+pub fn lex(text: &str, limit: usize) -> Vec<Result<(usize, String, usize), String>> {
+    let mut result = Vec::new();
+    for item in Lexer::new(text) {
+        if result.len() >= limit {
+            break;
+        }
+        match item {
+            Ok((s, t, e)) => result.push(Ok((s, tok_str(&t), e))),
+            Err(e) => {
+                result.push(Err(error_lines(&e).join(" ; ")));
+                break;
+            },
+        }
+    }
+    result
+}
+
+/// Parse a whole file (no preamble); Ok(statements as S-expressions) or Err(error lines).
+pub fn parse_statements(text: &str, with_spans: bool) -> Result<Vec<String>, Vec<String>> {
+    let mut errors = Vec::new();
+    let lexer = Lexer::new(text);
+    let result = StatementsParser::new().parse(&mut errors, lexer);
+    let mut error_list: Vec<Error> = errors.into_iter().map(|rec| Error::from(rec)).collect();
+    match result {
+        Ok(statements) => {
+            if error_list.len() == 0 {
+                return Ok(statements.iter().map(|s| statement_sexpr(s, with_spans)).collect());
+            }
+        },
+        Err(e) => { error_list.push(Error::from(e)); },
+    }
+    Err(error_lines(&Error::MultipleErrors(error_list)))
+}
+
+pub fn parse_expr(text: &str, with_spans: bool) -> Result<String, Vec<String>> {
+    match parse_expr_raw(text) {
+        Ok(e) => Ok(expr_sexpr(&e, with_spans)),
+        Err(e) => Err(e),
+    }
+}
+
+fn parse_expr_raw(text: &str) -> Result<SpannedExpr, Vec<String>> {
+    let mut errors = Vec::new();
+    let lexer = Lexer::new(text);
+    let result = ExprParser::new().parse(&mut errors, lexer);
+    let mut error_list: Vec<Error> = errors.into_iter().map(|rec| Error::from(rec)).collect();
+    match result {
+        Ok(e) => {
+            if error_list.len() == 0 {
+                return Ok(e);
+            }
+        },
+        Err(e) => { error_list.push(Error::from(e)); },
+    }
+    Err(error_lines(&Error::MultipleErrors(error_list)))
+}
+
+/// Static check and evaluation of one expression in an explicit environment.
+/// `wires`: (name, width, bits) of every visible wire; `constants`: the subset visible to
+/// the always-true test. Returns (checker result, evaluator result).
+pub fn check_and_eval(text: &str, wires: &[(String, WireWidth, u128)], constants: &[String])
+        -> Result<(Result<WireWidth, Vec<String>>, Result<WireValue, Vec<String>>), Vec<String>> {
+    let expr = parse_expr_raw(text)?;
+    let mut widths: HashMap<&str, WireWidth> = HashMap::new();
+    let mut values = WireValues::new();
+    let mut constant_values = WireValues::new();
+    for &(ref name, width, bits) in wires {
+        widths.insert(name.as_str(), width);
+        values.insert(name.clone(), WireValue { bits: bits, width: width });
+    }
+    for name in constants {
+        if let Some(v) = values.get(name) {
+            constant_values.insert(name.clone(), *v);
+        }
+    }
+    let checked = expr.get_width_and_check(&widths, &constant_values).map_err(|e| error_lines(&e));
+    let evaluated = expr.evaluate(&values).map_err(|e| error_lines(&e));
+    Ok((checked, evaluated))
+}
+
+fn expr_span(e: &SpannedExpr) -> Vec<(usize, usize)> { vec!(e.span) }
+
+/// One line per (flattened) error: `Variant|name,name|start:end,start:end`.
+pub fn error_lines(e: &Error) -> Vec<String> {
+    let mut result = Vec::new();
+    collect_error_lines(e, &mut result);
+    result
+}
+
+fn collect_error_lines(e: &Error, result: &mut Vec<String>) {
+    if let Error::MultipleErrors(ref lst) = *e {
+        for item in lst {
+            collect_error_lines(item, result);
+        }
+        return;
+    }
+    let debug_text = format!("{:?}", e);
+    let variant: String = debug_text.chars().take_while(|c| c.is_alphanumeric()).collect();
+    let (names, spans): (Vec<String>, Vec<(usize, usize)>) = match *e {
+        Error::MismatchedMuxWidths(ref options, _) =>
+            (vec!(), options.iter().map(|o| o.value.span).collect()),
+        Error::MismatchedExprWidths(ref a, _, ref b, _) => (vec!(), vec!(a.span, b.span)),
+        Error::MismatchedWireWidths(ref name, _, ref b, _) => (vec!(name.clone()), expr_span(b)),
+        Error::MismatchedRegisterDefaultWidths { ref bank, ref register_name, ref default_expression, .. } =>
+            (vec!(bank.clone(), register_name.clone()), expr_span(default_expression)),
+        Error::DuplicateRegister { ref bank, ref register_name } =>
+            (vec!(bank.clone(), register_name.clone()), vec!()),
+        Error::UndeclaredWireAssigned { ref name, span, .. } => (vec!(name.clone()), vec!(span)),
+        Error::UndeclaredWireRead { ref name, ref expr, .. } => (vec!(name.clone()), expr_span(expr)),
+        Error::NonConstantWireRead(ref name, ref expr) => (vec!(name.clone()), expr_span(expr)),
+        Error::UnsetWire(ref name, span) => (vec!(name.clone()), vec!(span)),
+        Error::UnsetBuiltinWire(ref name) => (vec!(name.clone()), vec!()),
+        Error::UnsetUndeclaredWire(ref name) => (vec!(name.clone()), vec!()),
+        Error::UnsetRegisterInputWire { ref name, register_span } => (vec!(name.clone()), vec!(register_span)),
+        Error::RedeclaredWire(ref name, a, b) => (vec!(name.clone()), vec!(a, b)),
+        Error::DoubleAssignedWire(ref name, a, b) => (vec!(name.clone()), vec!(a, b)),
+        Error::DoubleAssignedRegisterWire { ref name, register_span, assign_span } =>
+            (vec!(name.clone()), vec!(register_span, assign_span)),
+        Error::DoubleDeclaredRegisterOutWire { ref name, old_span, new_span } =>
+            (vec!(name.clone()), vec!(old_span, new_span)),
+        Error::DoubleAssignedFixedOutWire { ref name, span, .. } => (vec!(name.clone()), vec!(span)),
+        Error::RedeclaredBuiltinWire { ref name, span, .. } => (vec!(name.clone()), vec!(span)),
+        Error::PartialFixedInput { ref found_inputs, ref missing_inputs, .. } => {
+            let mut names = found_inputs.clone();
+            names.push(String::from("/"));
+            names.extend(missing_inputs.iter().cloned());
+            (names, vec!())
+        },
+        Error::WireLoop(ref lst) => (lst.clone(), vec!()),
+        Error::InvalidWireWidth(span) => (vec!(), vec!(span)),
+        Error::InvalidRegisterBankName(ref name, span) => (vec!(name.clone()), vec!(span)),
+        Error::InvalidBitIndex(ref expr, _) => (vec!(), expr_span(expr)),
+        Error::NonBooleanWidth(ref expr) => (vec!(), expr_span(expr)),
+        Error::NoBitWidth(ref expr) => (vec!(), expr_span(expr)),
+        Error::MisorderedBitIndexes(ref expr) => (vec!(), expr_span(expr)),
+        Error::InvalidConstant(span) => (vec!(), vec!(span)),
+        Error::WireTooWide(ref expr) => (vec!(), expr_span(expr)),
+        Error::ExpectedStatementFoundExpr(ref expr) => (vec!(), expr_span(expr)),
+        Error::UnterminatedComment(loc) => (vec!(), vec!((loc, loc.wrapping_add(2)))),
+        Error::LexicalError(loc) => (vec!(), vec!((loc, loc.wrapping_add(1)))),
+        Error::InvalidToken(loc) => (vec!(), vec!((loc, loc.wrapping_add(1)))),
+        Error::InternalParserErrorNear(span, _) => (vec!(), vec!(span)),
+        Error::MissingWireWidth(span) => (vec!(), vec!(span)),
+        Error::WireAssignedInDeclaration(span) => (vec!(), vec!(span)),
+        Error::MissingRegisterWidth(span) => (vec!(), vec!(span)),
+        Error::AddedConstWidth(span) => (vec!(), vec!(span)),
+        Error::MissingAssignmentMux(span) => (vec!(), vec!(span)),
+        Error::RegisterDeclaredWithWire(span) => (vec!(), vec!(span)),
+        Error::NoMuxDefaultOption(ref expr) => (vec!(), expr_span(expr)),
+        Error::MultipleMuxDefaultOption(ref expr) => (vec!(), expr_span(expr)),
+        Error::UnreachableOptions(ref expr) => (vec!(), expr_span(expr)),
+        Error::UnrecognizedToken { location, .. } => (vec!(), vec!(location)),
+        Error::ExtraToken(span) => (vec!(), vec!(span)),
+        _ => (vec!(), vec!()),
+    };
+    let span_text: Vec<String> = spans.iter().map(|s| format!("{}:{}", s.0, s.1)).collect();
+    result.push(format!("{}|{}|{}", variant, names.join(","), span_text.join(",")));
+}
